@@ -43,6 +43,10 @@ pub enum Case11 {
         #[serde(default)]
         testnet3: bool,
     },
+    /// The canister's header store (stable store + unstable chain + announced headers) as seen
+    /// by the validation of a candidate header, compared with the model chain after every step of
+    /// a generated history on any network (no mining needed for the lookups).
+    Lookup { hist: crate::hist::History, probes: Vec<u16> },
     /// Mined regtest chain validated end to end.
     Regtest {
         len: u8,
@@ -180,7 +184,8 @@ impl Property for C11 {
             prop_oneof![2 => Just(100_000i32), 3 => -7300i32..200],
         )
             .prop_map(|(len, dts, cand_dt, cand_bits, cand_mined, cand_unknown_parent, now_rel)| Case11::Regtest { len, dts, cand_dt, cand_bits, cand_mined, cand_unknown_parent, now_rel });
-        prop_oneof![3 => synthetic, 2 => regtest].boxed()
+        let lookup = (crate::hist::history_strategy(30, 1, true, true), prop::collection::vec(any::<u16>(), 1..4)).prop_map(|(hist, probes)| Case11::Lookup { hist, probes });
+        prop_oneof![6 => synthetic, 4 => regtest, 1 => lookup].boxed()
     }
     fn cases(&self, tier: Tier) -> u32 {
         match tier {
@@ -189,7 +194,7 @@ impl Property for C11 {
         }
     }
     fn rule(&self) -> String {
-        "(i) Synthetic unmined header chains of 1..40, 2010..2030 or 4028..4100 headers on mainnet, testnet4 and regtest with per-period base bits (real mainnet values and random, kept <= the network maximum), per-block time deltas (incl. > 20 minutes and negative) and min-difficulty runs; at 4..40 probes per chain (heights around 2015/2016, 4031/4032, 0 and the tip; candidate timestamps around prev+1200/1201 and far away) the hook's required target is compared as a 256-bit value with a big-integer port of Bitcoin Core's GetNextWorkRequired (2016 retarget with the 4x clamp, BIP94 base on testnet4, 20-minute rule and walk-back on testnet4/regtest, no retargeting on regtest), and the timestamp rule (time > median of up to 11, time <= now+2h) with its model; validate_header itself must reject every unmined candidate on mainnet/testnet and never trap. (ii) Mined regtest chains (1..25 headers) with a candidate whose time, bits, work and parent are perturbed: accepted <=> all five clauses of the model. Non-trivial: probe height within 2 of a multiple of 2016, or a > 20-minute gap, or a walk-back over >= 2 min-difficulty headers, or a timestamp within 1 s of the median / the +2h limit; distinct = (net, probe, chain hash).".into()
+        "(i) Synthetic unmined header chains of 1..40, 2010..2030 or 4028..4100 headers on mainnet, testnet4 and regtest with per-period base bits (real mainnet values and random, kept <= the network maximum), per-block time deltas (incl. > 20 minutes and negative) and min-difficulty runs; at 4..40 probes per chain (heights around 2015/2016, 4031/4032, 0 and the tip; candidate timestamps around prev+1200/1201 and far away) the hook's required target is compared as a 256-bit value with a big-integer port of Bitcoin Core's GetNextWorkRequired (2016 retarget with the 4x clamp, BIP94 base on testnet4, 20-minute rule and walk-back on testnet4/regtest, no retargeting on regtest), and the timestamp rule (time > median of up to 11, time <= now+2h) with its model; validate_header itself must reject every unmined candidate on mainnet/testnet and never trap. (ii) Mined regtest chains (1..25 headers) with a candidate whose time, bits, work and parent are perturbed: accepted <=> all five clauses of the model. (iii) The canister's own header store (stable header store + unstable chain + announced headers), as seen when a candidate header on any tree block is validated, is compared after every step of generated histories on all networks with the model chain: height, lookup by every height and by every hash, refusal of known and unconnected headers. Non-trivial: probe height within 2 of a multiple of 2016, or a > 20-minute gap, or a walk-back over >= 2 min-difficulty headers, or a timestamp within 1 s of the median / the +2h limit; distinct = (net, probe, chain hash).".into()
     }
     fn assumptions(&self) -> Vec<String> {
         vec![
@@ -198,7 +203,7 @@ impl Property for C11 {
         ]
     }
     fn required_classes(&self, tier: Tier) -> Vec<&'static str> {
-        let mut v = vec!["probe_at_retarget_boundary", "gap_over_20_minutes", "walk_back_ge_2", "timestamp_on_mtp_edge", "timestamp_on_2h_edge", "regtest_accepted", "regtest_rejected", "retarget_clamped", "overflowing_compact_target", "testnet3_parameters"];
+        let mut v = vec!["probe_at_retarget_boundary", "gap_over_20_minutes", "walk_back_ge_2", "timestamp_on_mtp_edge", "timestamp_on_2h_edge", "regtest_accepted", "regtest_rejected", "retarget_clamped", "overflowing_compact_target", "testnet3_parameters", "canister_header_store_lookup", "lookup_through_announced_headers"];
         if tier == Tier::Thorough {
             v.push("second_retarget_boundary");
         }
@@ -321,6 +326,102 @@ impl Property for C11 {
                     if (near_boundary && height >= pm::INTERVAL - 2) || gap || back >= 2 || mtp_edge || h2_edge {
                         out.nontrivial(fnv(format!("{}-{}-{}-{}", chain_hash, ph, p.dt, now_offset).as_bytes()));
                     }
+                }
+            }
+            Case11::Lookup { hist, probes } => {
+                use crate::hist::World;
+                use ic_btc_canister as can;
+                let mut w = World::new(&hist.cfg);
+                out.class("canister_header_store_lookup");
+                let check_view = |w: &World, parent: usize, with_next: bool, extra_chain: &[Header], out: &mut Outcome, ctx: &str| {
+                    let m = &w.model;
+                    let mut chain: Vec<Header> = m.chain_to(parent).iter().map(|b| m.blocks[*b].block.header).collect();
+                    chain.extend(extra_chain.iter().copied());
+                    let prev = *chain.last().unwrap();
+                    let cand = Header {
+                        version: Version::from_consensus(0x2000_0000),
+                        prev_blockhash: prev.block_hash(),
+                        merkle_root: TxMerkleNode::all_zeros(),
+                        time: prev.time + 1,
+                        bits: prev.bits,
+                        nonce: 12345,
+                    };
+                    out.checks += 1;
+                    match crate::sut::guarded(|| can::with_state(|s| can::verif_header_store_view(s, &cand, with_next))) {
+                        Err(p) => out.fail(format!("{ctx}: building the header store trapped: {p}")),
+                        Ok(Err(e)) => out.fail(format!("{ctx}: a header whose parent is in the tree was refused a validation context: {:?}", e)),
+                        Ok(Ok((height, by_height, by_hash))) => {
+                            let want_h = chain.len() as u32 - 1;
+                            if height != want_h {
+                                out.fail(format!("{ctx}: the header store reports height {height} for the parent, it is at height {want_h}"));
+                            }
+                            for (h, want) in chain.iter().enumerate() {
+                                if by_height.get(h).copied().flatten() != Some(*want) {
+                                    out.fail(format!("{ctx}: header store lookup by height {h} (stable height {}, parent at {want_h}) does not return the chain's header at that height", m.anchor_height()));
+                                    break;
+                                }
+                                if by_hash.get(h).copied().flatten() != Some(*want) {
+                                    out.fail(format!("{ctx}: header store lookup by hash of the header at height {h} fails or returns another header"));
+                                    break;
+                                }
+                            }
+                            if by_height.get(chain.len()).copied().flatten().is_some() {
+                                out.fail(format!("{ctx}: header store returns a header above the parent's height"));
+                            }
+                            if (want_h as usize) > 0 && m.anchor_height() > 0 && m.anchor_height() <= want_h {
+                                out.nontrivial(fnv(format!("lk-{}-{}-{}-{}", m.anchor_height(), want_h, with_next, extra_chain.len()).as_bytes()));
+                            }
+                        }
+                    }
+                };
+                for (i, op) in hist.ops.iter().enumerate() {
+                    let info = w.apply(i, op);
+                    if !info.errors.is_empty() {
+                        out.fail(format!("step {i}: {:?}", info.errors));
+                        return out;
+                    }
+                    let live: Vec<usize> = w.model.live.iter().copied().collect();
+                    for p in probes {
+                        let parent = live[crate::hist::pick(*p, live.len())];
+                        check_view(&w, parent, false, &[], &mut out, &format!("step {i}"));
+                        check_view(&w, parent, true, &[], &mut out, &format!("step {i} (announced-aware)"));
+                    }
+                    // refusals: a known child, and a parent outside the tree
+                    let tip = w.model.best_tip();
+                    if let Some(par) = w.model.blocks[tip].parent {
+                        if w.model.live.contains(&par) {
+                            let known = w.model.blocks[tip].block.header;
+                            out.checks += 1;
+                            match can::with_state(|s| can::verif_header_store_view(s, &known, false)) {
+                                Err(can::ValidationContextError::AlreadyKnown(_)) => {}
+                                other => out.fail(format!("step {i}: the header of a block already in the tree got {:?} instead of 'already known'", other.map(|x| x.0))),
+                            }
+                        }
+                    }
+                    let orphan = Header { prev_blockhash: BlockHash::from_byte_array([9u8; 32]), ..w.model.blocks[tip].block.header };
+                    out.checks += 1;
+                    if !matches!(can::with_state(|s| can::verif_header_store_view(s, &orphan, true)), Err(can::ValidationContextError::BlockDoesNotExtendTree(_))) {
+                        out.fail(format!("step {i}: a header whose parent is unknown was given a validation context"));
+                    }
+                }
+                // announced chain on top of the best tip (regtest with mined blocks only)
+                if hist.cfg.validated {
+                    let mut p = w.model.best_tip();
+                    let base = p;
+                    let mut blobs = vec![];
+                    let mut extra = vec![];
+                    for _ in 0..3 {
+                        let (id, _, _) = w.mine_detached(p, &[(0, 1)], &[], None, 20);
+                        let hd = w.model.blocks[id].block.header;
+                        blobs.push(crate::hb::header_blob(&chain::serialize_header(&hd)));
+                        extra.push(hd);
+                        p = id;
+                    }
+                    if crate::sut::guarded(|| can::with_state_mut(|s| can::state::insert_next_block_headers(s, &blobs))).is_err() {
+                        out.fail("announcing headers trapped".to_string());
+                    }
+                    check_view(&w, base, true, &extra, &mut out, "announced chain");
+                    out.class("lookup_through_announced_headers");
                 }
             }
             Case11::Regtest { len, dts, cand_dt, cand_bits, cand_mined, cand_unknown_parent, now_rel } => {
